@@ -283,10 +283,12 @@ def r6(cx):
             params = [x for x in params if x and "self" not in x.split()]
         ctx[id(f)] = (root, lets, params)
         return ctx[id(f)]
+    _FIELD_HINT = {}
     def classify_in(f, name, depth=0, seen=()):
         root, lets, params = context(f)
         out = set()
         inits = lets.get(name, [])
+        if depth == 0: _FIELD_HINT["field"] = name
         for init in inits:
             flat = re.sub(r"\s+", "", init)
             if re.search(r"\bt\.input\b", flat) and not re.search(r"\bt\.output\b", flat): out.add("input"); continue
@@ -315,7 +317,12 @@ def r6(cx):
                 if re.search(r"\bt\.input\b", flat) and not re.search(r"\bt\.output\b", flat): out.add("input"); continue
                 if re.search(r"\bt\.output\b", flat) and not re.search(r"\bt\.input\b", flat): out.add("output"); continue
                 got = set()
-                for i2 in set(re.findall(r"\b[a-z_][a-z0-9_]*\b", arg)):
+                # a struct literal handed over: the member that carries the wanted name decides (`Arm { names: &in_names, .. }`)
+                want_field = _FIELD_HINT.get("field")
+                mfield = re.search(r"\b%s\s*:\s*([^,}]+)" % re.escape(want_field), arg) if want_field else None
+                if mfield is None and want_field and re.search(r"\{[^{}]*\b%s\b[^{}]*\}" % re.escape(want_field), arg): mfield = re.search(r"\b(%s)\b" % re.escape(want_field), arg)   # shorthand `Arm { names, .. }`
+                scope = mfield.group(1) if mfield else arg
+                for i2 in set(re.findall(r"\b[a-z_][a-z0-9_]*\b", scope)):
                     if i2 in ("mut", "ref", "iter", "as_slice", "as_ref", "clone"): continue
                     got |= classify_in(g, i2, depth)
                 out |= got or {"unknown"}
